@@ -11,6 +11,12 @@ TRUSTED_BASE = [
     "correlogram from the data and from the library's lags, multitaper unity / eigen; multitaper adapt / unity / eigen on a re-used "
     "object: kind 'modhist') and the class-glue correspondence",
     "SVD-based estimators: relative to the SVD contract; checked by the oracle",
+    "records longer than the grid (NFFT < N; periodogram, multitaper class, pmtm function): the relations asserted (rotation, mirror, "
+    "fold) are those of the statement and hold whether the samples beyond NFFT are dropped or aliased onto the grid; the "
+    "correspondence cases ('mod' / 'modhist' with NFFT < N) additionally pin the unchanged behaviour, numpy.fft.fft's truncation "
+    "to the first NFFT samples, which is what the Lean model's DFT defines (Model/DFT.lean dftBin)",
+    "kind 'pmtmfn': the estimate is assembled from pmtm's return values by the harness the way MultiTapering.run does "
+    "(mean over the tapers of weights x |Sk|^2)",
     "the oracle's references are numpy expressions of the statement itself: np.roll(p0, m), p0[(-k) % NFFT], 2 * pc[:L] with "
     "L = NFFT/2+1 (even) or (NFFT+1)/2 (odd), and the lengths NFFT / L; both sides of each relation come from the library",
     "kind 'hist': the harness drives the object only through its public surface (constructor, `data` / `NFFT` attribute assignment, "
@@ -21,7 +27,10 @@ ASSUMPTIONS = [
     "orders in domain (pcovar order <= N/2-1, pmodcovar order <= N/2-1, pburg order <= N-2, lag < N, NW < N/2; the underdetermined "
     "pcovar order N/2 and pmodcovar order 2N/3 are not generated); tolerance 1e-6 relative (1e-5 for covariance / ARMA least-squares "
     "and MUSIC / EV paths), max-norm relative to the peak AND per bin relative to the bin (bins above 1e-12 of the peak)",
-    "NFFT admissible for the class (classes.min_nfft): >= N for periodogram / multitaper, 2*lag+1, 2*order, model order + 1",
+    "NFFT admissible for the class (classes.min_nfft): 2*lag+1 for the correlogram, 2*order for minimum variance, model order + 1 for the "
+    "parametric classes; for the periodogram and the multitaper class / pmtm function any NFFT >= 12 is generated: with NFFT < N they "
+    "estimate from the first NFFT samples, where the shift, mirror and real-fold clauses are asserted and the time-reversal clause is "
+    "not (an estimator that keeps one end of the record is not invariant under time reversal; observed difference ~1)",
     "pburg order-selection criteria AIC, AICc, KIC, AKICc, FPE, MDL ('CAT' is rejected by the constructor and is not generated)",
     "kind 'hist' (objects with a past): same tolerances; 3e-6 for the time-reversal relation of the adaptive multitaper class (taper "
     "asymmetry of ~1e-10 carried into bins 100 dB down by the adaptive weights: 5.5e-8 measured on new objects); line records of parma "
@@ -44,7 +53,16 @@ RULE = ("complex/real data x integer shifts m (all residues for small NFFT; 0, N
         "Yule-Walker, MUSIC/EV criteria); N = 48, 64, 96, NFFT = N, 2N+1, random even; records with a LINE spectrum (2-3 tones "
         "off the bin grid over a noise floor of 1e-2 / 1e-3 of the strongest tone; parma 1e-1, order-12 Burg 1e-2) and noise "
         "records, complex and real, compared per bin; kind 'modhist': multitaper objects (adapt, unity, eigen; N = 24, 32, 48) that "
-        "estimated x and are then handed the modulated record: weights and psd against the Lean model of pmtm + class mean")
+        "estimated x and are then handed the modulated record: weights and psd against the Lean model of pmtm + class mean; "
+        "NFFT < N for the estimators that transform the record itself (family 'short-grid': Periodogram with 4 windows, MultiTapering "
+        "unity / eigen / adapt with 5 taper configurations incl. supplied tapers and default k): N not a multiple of NFFT (64/48, 100/32, "
+        "90/37, 65/64, N/(N-1), random N/2 < NFFT < N) and N a multiple of NFFT (96/48, 128/32, 99/33, random), shifts with m*N/NFFT not "
+        "an integer, noise and line records, fs / scale_by_freq, list input -- shift, mirror and real-fold clauses on new objects and "
+        "on objects with a past (data re-assigned; NFFT attribute moved from >= N to < N and between two short grids; several alive), "
+        "correspondence of speriodogram / pmtm / the re-used MultiTapering object with the Lean model on modulated records longer than "
+        "the grid; kind 'pmtmfn': the same clauses on the estimate assembled from the return values of the FUNCTION pmtm (each "
+        "eigenspectrum and the weighted mean), NFFT below / at / above N and NFFT=None (the function's default max(256, 2**nextpow2(N))), "
+        "tapers computed or supplied, complex and real records")
 
 TIMEREV = ["Periodogram", "pcorrelogram", "pyule", "pburg", "pmodcovar", "MT-unity", "MT-eigen", "MT-adapt", "pminvar"]
 REAL_FOLD = ["pburg", "pyule", "pcovar", "pmodcovar", "parma", "pma", "pminvar", "MT-unity", "MT-eigen", "MT-adapt"]
@@ -93,6 +111,17 @@ def _psd(cls, x, nfft):
     spec = _CFG.get("nfft_spec")
     arg = nfft if spec is None else {"none": None, "nextpow2": "nextpow2"}[spec]
     return np.asarray(_make(cls, x, arg, _CFG.get("fs", 1.0), _CFG.get("scale", False), _CFG.get("cfg")).psd)
+
+
+def _truncates(cls, nfft, N):
+    """NFFT < N for an estimator that transforms the (windowed / tapered) record itself with `numpy.fft.fft(., NFFT)`: the
+    periodogram and the multitaper classes then estimate from the FIRST NFFT samples only.  The shift, mirror and fold clauses are
+    stated for every NFFT and hold there (modulation by exp(2 pi i m n/NFFT), conjugation and the real / declared-complex pair act
+    sample by sample, so they commute with dropping samples); the time-reversal clause is stated for estimators that are invariant
+    under time reversal, which an estimator that keeps one END of the record is not (reversal hands it the other end: relative
+    difference ~1 on the unchanged code), so that clause is asserted for NFFT >= N only.  The correlation-based and parametric
+    classes use the whole record whatever NFFT is: nothing is excluded for them."""
+    return nfft < N and (cls == "Periodogram" or str(cls).startswith("MT-"))
 
 
 BIN_FLOOR = 1e-12      # the per-bin comparison uses the same tolerance as the max-norm one, on bins above this share of the peak
@@ -147,7 +176,7 @@ def _oracle_shift(p):
     elif binrel(pc, mir) > tol:
         out.append("%s (NFFT=%d): conjugated data: some bin of the mirrored estimate differs (per-bin rel err %.2e)" % (
             cls, nfft, binrel(pc, mir)))
-    if cls in TIMEREV:
+    if cls in TIMEREV and not _truncates(cls, nfft, len(x)):
         pr = _psd(cls, np.conj(x[::-1]), nfft)
         if pr.shape != p0.shape or rel(pr, p0) > tol:
             out.append("%s (NFFT=%d): conjugated time-reversed data give a different spectrum (rel err %.2e)" % (
@@ -155,6 +184,8 @@ def _oracle_shift(p):
         elif binrel(pr, p0) > tol:
             out.append("%s (NFFT=%d): conjugated time-reversed data: some bin differs (per-bin rel err %.2e)" % (
                 cls, nfft, binrel(pr, p0)))
+    if nfft < len(x):
+        out = [o + " [record of N=%d samples, longer than the grid]" % len(x) for o in out]
     return out
 
 
@@ -199,12 +230,14 @@ def _oracle_real(p):
             elif binrel(pc[1:], pc[1:][::-1]) > tol:
                 out.append("%s (NFFT=%d): two-sided estimate of real samples: some bin k differs from bin -k (per-bin rel err %.2e)" % (
                     cls, nfft, binrel(pc[1:], pc[1:][::-1])))
-    if cls in TIMEREV:
+    if cls in TIMEREV and not _truncates(cls, nfft, len(xr)):
         prr = _psd(cls, _as_input(xr[::-1].copy(), how), nfft)
         if rel(prr, pr) > tol:
             out.append("%s (NFFT=%d): time-reversed real data give a different spectrum" % (cls, nfft))
         elif binrel(prr, pr) > tol:
             out.append("%s (NFFT=%d): time-reversed real data: some bin differs (per-bin rel err %.2e)" % (cls, nfft, binrel(prr, pr)))
+    if nfft < len(xr):
+        out = [o + " [record of N=%d samples, longer than the grid]" % len(xr) for o in out]
     return out
 
 
@@ -251,7 +284,7 @@ def _hist_relations(p):
     if np.iscomplexobj(x):
         m = p["m"]
         recs = {"x": x, "shift": x * np.exp(2j * np.pi * m * np.arange(N) / nfft), "conj": np.conj(x)}
-        if cls in TIMEREV:
+        if cls in TIMEREV and not _truncates(cls, nfft, N):
             recs["rev"] = np.conj(x[::-1])
 
         def relate(P, name, tag=""):
@@ -266,7 +299,7 @@ def _hist_relations(p):
         recs = {"x": x}
         if cls in REAL_FOLD:
             recs["cplx"] = x.astype(complex)
-        if cls in TIMEREV:
+        if cls in TIMEREV and not _truncates(cls, nfft, N):
             recs["rev"] = x[::-1].copy()
 
         def relate(P, name, tag=""):
@@ -371,7 +404,7 @@ def oracle_hist(p):
     # symmetric to ~1e-10 only, and the adaptive weights carry that into bins 100 dB below the peak: 1.6e-8 per bin in the streams
     # above, 5.5e-8 the worst over 3000 further line records on NEW objects (N=96, NFFT=96); 3e-6 leaves 55x.
     tol = 1e-5 if cls in HIST_LOOSE else 1e-6
-    what = "%s (NFFT=%d), %s" % (cls, nfft, _hist_label(p))
+    what = "%s (NFFT=%d%s), %s" % (cls, nfft, ", record of N=%d samples" % len(p["x"]) if nfft < len(p["x"]) else "", _hist_label(p))
     out = []
     tol0 = tol
     for label, a, b in rels:
@@ -502,10 +535,80 @@ def post_modhist(p, iv, mv):
     return iv, list(mv[-2:])            # the model returns the eigenspectra first; the object exposes weights and psd
 
 
+# the multitaper estimate through the FUNCTION `pmtm` (eigenspectra, weights, concentrations), the estimate assembled from its
+# return values the way the class does (mean over the tapers of weights x |Sk|^2).  NFFT an integer below / at / above N, or left
+# to the function's own default (NFFT=None -> max(256, 2**nextpow2(N)), which is NOT the class default N); tapers computed by the
+# function or supplied by the caller (e=, v=).
+
+def _pmtm_est(p, x):
+    sp = C.sp()
+    meth = p["fn"][5:]
+    arg = None if p.get("nfft_spec") == "none" else p["nfft"]
+    if p.get("supplied"):
+        v, e = _tapers(len(x), p["NW"], p["k"])
+        Sk, w, ev = sp.pmtm(x, e=e, v=v, NFFT=arg, method=meth, show=False)
+    else:
+        Sk, w, ev = sp.pmtm(x, NW=p["NW"], k=p["k"], NFFT=arg, method=meth, show=False)
+    SkA = np.abs(np.asarray(Sk)) ** 2
+    w = np.asarray(w)
+    est = np.mean(SkA.T * w, axis=1) if meth == "adapt" else np.mean(SkA * w, axis=0)
+    return SkA, np.asarray(est)
+
+
+def oracle_pmtmfn(p):
+    x, nfft = np.asarray(p["x"]), p["nfft"]
+    N = len(x)
+    what = "pmtm(method=%r, NFFT=%s%s), N=%d" % (p["fn"][5:], "None" if p.get("nfft_spec") == "none" else nfft,
+                                                ", tapers supplied" if p.get("supplied") else "", N)
+    # tolerance 1e-6, max-norm and per bin, as for the class (kind 'shift'); measured on the unchanged code (all relations,
+    # eigenspectra and assembled estimate, NFFT below / at / above N, line and noise records, the runner's amplitude /
+    # degenerate / stride variants included): see the table at `gen_short_grid`
+    tol = 1e-6
+    out = []
+    S0, e0 = _pmtm_est(p, x)
+    if S0.ndim != 2 or S0.shape[1] != nfft or e0.shape != (nfft,):
+        return ["%s: eigenspectra %s / estimate %s, expected NFFT=%d bins" % (what, S0.shape, e0.shape, nfft)]
+
+    def cmp(label, a, b, t=tol):
+        if a.shape != b.shape:
+            out.append("%s: %s: shapes %s / %s" % (what, label, a.shape, b.shape))
+        elif rel(a, b) > t:
+            out.append("%s: %s (rel err %.2e)" % (what, label, rel(a, b)))
+        elif binrel(a, b) > t:
+            out.append("%s: %s: some bin differs (per-bin rel err %.2e)" % (what, label, binrel(a, b)))
+
+    if np.iscomplexobj(x):
+        m = p["m"]
+        S1, e1 = _pmtm_est(p, x * np.exp(2j * np.pi * m * np.arange(N) / nfft))
+        cmp("multiplying sample n by exp(2 pi i m n/NFFT), m=%d, does not rotate the estimate by m bins" % m, e1, np.roll(e0, m))
+        if S1.shape == S0.shape:
+            for i in range(S0.shape[0]):
+                cmp("modulated data, m=%d: eigenspectrum %d is not rotated by m bins" % (m, i), S1[i], np.roll(S0[i], m))
+        Sc, ec = _pmtm_est(p, np.conj(x))
+        cmp("conjugating the data does not mirror the estimate (bin k <-> -k)", ec, _mirror(e0))
+        if Sc.shape == S0.shape:
+            for i in range(S0.shape[0]):
+                cmp("conjugated data: eigenspectrum %d is not mirrored" % i, Sc[i], _mirror(S0[i]))
+        if nfft >= N:
+            Sr, er = _pmtm_est(p, np.conj(x[::-1]))
+            # 3e-6 for the adaptive weights (taper asymmetry of ~1e-10 carried into low bins, see `oracle_hist`)
+            cmp("conjugated time-reversed data give a different estimate", er, e0, 3e-6 if p["fn"] == "pmtm-adapt" else tol)
+    else:
+        # the function returns all NFFT bins for real samples too: the two-sided estimate of real data is symmetric, equals that
+        # of the same samples declared complex, and (NFFT >= N) that of the time-reversed record
+        cmp("two-sided estimate of real samples, bin k vs -k", e0[1:], e0[1:][::-1])
+        Sc, ec = _pmtm_est(p, x.astype(complex))
+        cmp("real samples vs the same samples declared complex", e0, ec)
+        if nfft >= N:
+            Sr, er = _pmtm_est(p, x[::-1].copy())
+            cmp("time-reversed real data give a different estimate", er, e0, 3e-6 if p["fn"] == "pmtm-adapt" else tol)
+    return out
+
+
 def _key(p):
     x = np.asarray(p["x"])
     cfg = p.get("cfg") or {}
-    extra = "|".join("%s=%s" % (k, p[k]) for k in ("fs", "scale", "nfft_spec", "input", "order", "Q", "M", "lag", "window", "NW", "k", "mode", "seq", "via", "nfft0", "perm", "detour")
+    extra = "|".join("%s=%s" % (k, p[k]) for k in ("fs", "scale", "nfft_spec", "input", "order", "Q", "M", "lag", "window", "NW", "k", "mode", "seq", "via", "nfft0", "perm", "detour", "supplied")
                      if k in p)
     return "%s|%s|%s|%s|%s|%d|%s|%s" % (p.get("cls"), p.get("fn"), p.get("nfft"), p.get("m"), cfg.get("window"),
                                        hash(x.tobytes()) & 0xFFFFF, sorted((k, str(v)) for k, v in cfg.items()), extra)
@@ -526,6 +629,11 @@ def _tags(p):
         t.append("input:%s/%s" % (p.get("input", "array"), x.dtype.kind))
     if p.get("tag"):
         t.append("family:" + p["tag"])
+    if nfft < N:
+        direct = _truncates(p.get("cls"), nfft, N) or p.get("fn") in ("sper", "mtm-unity", "mtm-eigen", "mtm-adapt", "pmtm-unity",
+                                                                      "pmtm-eigen", "pmtm-adapt")
+        t.append("NFFT<N:" + ("record transformed directly (first NFFT samples), " if direct else "whole record used, ")
+                 + ("N multiple of NFFT" if N % nfft == 0 else "N not a multiple of NFFT"))
     if p.get("mode"):
         t.append("history:%s%s" % (p["mode"], "/" + p.get("seq", "fwd") if p["mode"] == "reuse" else ""))
         t.append("history-read:" + {"psd": ".psd", "call": "p();p.psd", "run": "p.run();p.psd"}[p.get("via", "psd")])
@@ -539,6 +647,7 @@ KINDS = {
     "shift": {"oracle": oracle_shift, "key": _key, "tags": _tags},
     "real": {"oracle": oracle_real, "key": _key, "tags": _tags},
     "hist": {"oracle": oracle_hist, "key": _key, "tags": _tags},
+    "pmtmfn": {"oracle": oracle_pmtmfn, "key": _key, "tags": _tags},
     "modhist": {"impl": impl_modhist, "model": model_modhist, "post": post_modhist, "rtol": 1e-7, "atol": 1e-300, "key": _key,
                 "tags": _tags},
     "mod": {"impl": impl_mod, "model": model_mod, "rtol": 1e-7, "atol": 1e-300, "key": _key, "tags": _tags},
@@ -866,6 +975,153 @@ def gen_modhist(nrng, tier):
                            "via": VIAS[(i // 6) % 3], "mode": "reuse", "tag": "hist-" + ("lines" if i % 2 == 0 else "noise")})
 
 
+# NFFT < N for the estimators that transform the record itself (periodogram, multitaper class, pmtm function)
+#
+# The statement quantifies over NFFT without tying it to N.  `numpy.fft.fft(x, NFFT)` with NFFT < N uses the first NFFT samples;
+# whatever an estimator does with the samples beyond NFFT (drop them, or alias them in time onto the grid), multiplying sample n
+# by exp(2 pi i m n/NFFT) must rotate the estimate by exactly m bins, conjugation must mirror it and the real / declared-complex
+# fold must hold: all three act sample by sample and exp(2 pi i m n/NFFT) has period NFFT in n.  (Not the time-reversal clause:
+# see `_truncates`.)  Record / grid pairs: N not a multiple of NFFT (one incomplete segment: 64/48, 100/32, 90/37, 65/64, N/(N-1),
+# random), N a multiple of NFFT (96/48, 128/32, 99/33), NFFT even and odd, NFFT just above half of N and just below N.
+#
+# Worst error of any relation, max-norm or per bin, on the unchanged code over 60 quick streams and 9 thorough streams of this
+# generator (about 30 000 + 34 000 cases, the runner's variants included: amplitudes 2^+-k, degenerate records, strides, byte order):
+#   kind 'shift' / 'real' (new objects): Periodogram 8.2e-10, MT-unity 4.8e-12, MT-eigen 4.9e-12, MT-adapt 7.2e-10
+#   kind 'hist' (objects with a past):   Periodogram 6.2e-11, MT-unity 3.4e-12, MT-eigen 3.8e-12, MT-adapt 2.9e-10
+#   kind 'pmtmfn' (function form), shift / mirror / symmetry / declared complex: unity 5.1e-10, eigen 9.4e-10, adapt 2.4e-9;
+#                 time reversal (NFFT >= N only): unity 2.4e-9, eigen 2.9e-9 (against 1e-6), adapt 2.8e-8 (against 3e-6)
+# -> the tolerances of the existing kinds (1e-6 max-norm and per bin; 3e-6 for the adaptive time reversal) leave >= 100x
+#    (time reversal of the adaptive function form), >= 340x everywhere else.
+# Correspondence (kinds 'mod' / 'modhist', rtol 1e-7): the Lean model's DFT is `numpy.fft.fft(x, n)` including the truncation to
+# n samples (Model/DFT.lean `dftBin`: sum over min(len x, n) samples), so the model is an independent reference for NFFT < N too.
+
+SHORT_PAIRS_REM = [(64, 48), (100, 32), (90, 37), (65, 64)]        # N not a multiple of NFFT
+SHORT_PAIRS_MULT = [(96, 48), (128, 32), (99, 33)]                  # N a multiple of NFFT
+SHORT_CLASSES = ["Periodogram", "MT-unity", "MT-eigen", "MT-adapt"]
+SHORT_CFGS = {"Periodogram": [None, {"window": "rectangular"}, {"window": "hamming"}, {"window": "blackman"}],
+              "MT": [None, {"NW": 4.0, "k": 7}, {"NW": 2.5, "k": None}, {"NW": 2.5, "k": 4, "supplied": True}, {"NW": 2.0, "k": 3}]}
+
+
+def _short_pairs(nrng, tier):
+    pairs = list(SHORT_PAIRS_REM) + list(SHORT_PAIRS_MULT)
+    for _ in range(3 if tier == "quick" else 12):
+        N = int(nrng.integers(24, 121))
+        nfft = int(nrng.integers(N // 2 + 1, N))                 # N/2 < NFFT < N: never a divisor of N
+        pairs.append((N, nfft))
+    N = int(nrng.integers(24, 121))
+    pairs.append((N, N - 1))
+    d = int(nrng.integers(2, 5))
+    nfft = int(nrng.integers(12, 40))
+    pairs.append((d * nfft, nfft))                               # a random multiple
+    return pairs
+
+
+def _short_ms(nrng, N, nfft, count, rot=0):
+    """shifts for a short grid: random residues, 1, NFFT/2 and beyond one period; at least one with m*N/NFFT not an integer
+    (a periodic continuation of the record would be invisible to the others)"""
+    ms = [int(nrng.integers(1, nfft)), 1, -int(nrng.integers(1, nfft)), nfft // 2, nfft + 3, -nfft - 1]
+    ms = ([ms[0]] + ms[1 + rot % 5:] + ms[1:1 + rot % 5])[:count]         # a random residue first, the others in rotation
+    if N % nfft and all((m * N) % nfft == 0 for m in ms):
+        ms[0] = 1
+    return ms
+
+
+def gen_short_grid(nrng, tier):
+    quick = tier == "quick"
+    c = h = 0
+    for N, nfft in _short_pairs(nrng, tier):
+        recs = [("noise", _cx(nrng, N), _rx(nrng, N)), ("lines", _lines(nrng, N), _lines(nrng, N, cplx=False))]
+        for cls in SHORT_CLASSES:
+            cfgs = SHORT_CFGS["Periodogram" if cls == "Periodogram" else "MT"]
+            for ci, cfg in enumerate(cfgs):
+                if quick and ci not in (0, 1 + (c % (len(cfgs) - 1))):
+                    c += 1
+                    continue
+                c += 1
+                if cfg and cfg.get("NW", 0) >= N / 2.0:
+                    continue
+                name, xc, xr = recs[c % 2] if quick else recs[ci % 2]
+                q = {"cls": cls, "nfft": nfft, "tag": "short-grid-" + name}
+                if cfg:
+                    q["cfg"] = cfg
+                if c % 5 == 0:
+                    q.update(fs=250.0, scale=True)
+                for m in _short_ms(nrng, N, nfft, 2 if quick else 3, c):
+                    yield ("shift", dict(q, x=xc, m=m))
+                if cls != "Periodogram":                              # the fold clause names the multitaper class, not the periodogram
+                    yield ("real", dict(q, x=xr))
+                    if c % 4 == 0:
+                        yield ("real", dict(q, x=xr, input="list"))
+        # objects with a past (kind 'hist'): data re-assigned on a short grid; NFFT attribute moved from >= N to < N and from one
+        # short grid to another
+        h += 1
+        for j, cls in enumerate(SHORT_CLASSES):
+            if quick and (j + h) % 2:                                # two of the four classes per pair, alternating
+                continue
+            cfgs = SHORT_CFGS["Periodogram" if cls == "Periodogram" else "MT"]
+            cfg = cfgs[(c + j) % len(cfgs)]
+            if cfg and cfg.get("NW", 0) >= (N - 7) / 2.0:
+                cfg = None
+            name, xc, xr = recs[(c + j) % 2]
+            base = {"cls": cls, "nfft": nfft, "tag": "short-grid-" + name}
+            if cfg:
+                base["cfg"] = cfg
+            m = _short_ms(nrng, N, nfft, 1)[0]
+            real_ok = cls != "Periodogram"
+            supplied = bool(cfg and cfg.get("supplied"))
+            yield ("hist", dict(base, x=xc, m=m, mode="reuse", seq=["fwd", "rev"][c % 2], via=VIAS[c % 3]))
+            yield ("hist", dict(base, x=xc, m=m, mode="nfft", nfft0=[N, N + 7, 2 * N + 1, max(4, nfft - 5), nfft + 1][(c + j) % 5],
+                                via=VIAS[(c + 1) % 3]))
+            if real_ok:
+                yield ("hist", dict(base, x=xr, mode="reuse", seq=["rev", "fwd"][c % 2], via=VIAS[(c + 2) % 3]))
+                yield ("hist", dict(base, x=xr, mode="nfft", nfft0=[2 * N, N, nfft + 3][(c + j) % 3], via=VIAS[c % 3]))
+            if not quick or (c + j) % 3 == 0:
+                yield ("hist", dict(base, x=xc, m=m, mode="alive", perm=[int(v) for v in nrng.permutation(3)], via=VIAS[c % 3]))
+                if not supplied:
+                    yield ("hist", dict(base, x=xc, m=m, mode="reuse", seq="fwd", via=VIAS[c % 3], detour="len"))
+                yield ("hist", dict(base, x=xc, m=m, mode="reuse", seq="rev", via=VIAS[c % 3], detour="fail", input="list"))
+            c += 1
+    # the function form: NFFT below / at / above N and the function's own default; tapers computed or supplied
+    fpairs = _short_pairs(nrng, tier) + [(64, 64), (50, 75), (40, 65), (33, 64)]
+    for i, (N, nfft) in enumerate(fpairs):
+        for j, meth in enumerate(("adapt", "unity", "eigen")):
+            if quick and nfft < N and N % nfft == 0 and (i + j) % 2:
+                continue
+            NW, k = [(2.5, 4), (2.0, 3), (3.0, 5), (4.0, 7), (2.5, None)][(i + j) % 5]
+            q = {"fn": "pmtm-" + meth, "nfft": nfft, "NW": NW, "k": k, "tag": "pmtm-function"}
+            if (i + j) % 3 == 0 and k is not None:
+                q["supplied"] = True
+            xc = _lines(nrng, N) if (i + j) % 2 else _cx(nrng, N)
+            for m in _short_ms(nrng, N, nfft, 1 if quick else 3, i + j):
+                yield ("pmtmfn", dict(q, x=xc, m=m))
+            if not quick or (i + j) % 2 == 0:
+                yield ("pmtmfn", dict(q, x=_lines(nrng, N, cplx=False) if (i + j) % 4 < 2 else _rx(nrng, N)))
+    for i, N in enumerate((40, 100, 300) if quick else (40, 64, 100, 256, 300)):   # NFFT=None: max(256, 2**nextpow2(N))
+        for j, meth in enumerate(("adapt", "unity", "eigen")):
+            if quick and (i + j) % 2:
+                continue
+            nfft = max(256, 1 << int(np.ceil(np.log2(N))))
+            q = {"fn": "pmtm-" + meth, "nfft": nfft, "nfft_spec": "none", "NW": 2.5, "k": 4, "tag": "pmtm-function"}
+            yield ("pmtmfn", dict(q, x=_cx(nrng, N), m=int(nrng.integers(1, nfft))))
+            yield ("pmtmfn", dict(q, x=_rx(nrng, N)))
+    # correspondence with the model on modulated records longer than the grid (functions, and the class on a re-used object)
+    for i in range(12 if quick else 60):
+        N, nfft = [(24, 16), (24, 23), (24, 12), (30, 20), (33, 32), (27, 9)][i % 6]
+        x = nrng.standard_normal(N) + 1j * nrng.standard_normal(N)
+        fn = ["sper", "mtm-unity", "mtm-eigen"][(i // 2) % 3]
+        q = {"fn": fn, "x": x, "nfft": nfft, "m": _short_ms(nrng, N, nfft, 1)[0], "order": 4, "tag": "short-grid-noise"}
+        if fn != "sper":
+            q["NW"], q["k"] = [(2.5, 4), (2.0, 3), (3.0, 5)][(i // 6) % 3]
+        yield ("mod", q)
+    fns = ["mtm-adapt", "mtm-unity", "mtm-adapt", "mtm-eigen"]
+    for i in range(8 if quick else 40):
+        N, nfft = [(24, 16), (32, 31), (48, 24), (30, 20)][i % 4]
+        x = _lines(nrng, N) if i % 2 == 0 else nrng.standard_normal(N) + 1j * nrng.standard_normal(N)
+        NW, k = [(2.5, 4), (2.0, 3), (3.0, 5), (4.0, 7)][(i // 2) % 4]
+        yield ("modhist", {"fn": fns[(i // 2) % 4], "x": x, "nfft": nfft, "m": _short_ms(nrng, N, nfft, 1)[0], "NW": NW, "k": k,
+                           "via": VIAS[(i // 4) % 3], "mode": "reuse", "tag": "short-grid-" + ("lines" if i % 2 == 0 else "noise")})
+
+
 def gen(rng, nrng, tier):
     N = 40
     n = np.arange(N)
@@ -928,4 +1184,5 @@ def gen(rng, nrng, tier):
     yield from _gen_mod(nrng, tier)
     yield from _gen_closure(nrng, tier)
     yield from gen_modhist(nrng, tier)
-    yield from gen_hist(nrng, tier)       # last: the random stream of the cases above is the one it was before this kind existed
+    yield from gen_hist(nrng, tier)       # the random stream of the cases above is the one it was before this kind existed
+    yield from gen_short_grid(nrng, tier)  # last, for the same reason
